@@ -194,8 +194,8 @@ PROPS = {
         "note": "derivability is computed under the matching table of C01 (a superset of what the library can match, so the premise is conservative).",
         "theorems": ["ArgMapper.C13.hopeless_reported", "ArgMapper.C13.unsat_before_execution", "ArgMapper.C13.exact_not_listed", "ArgMapper.C02.refused", "ArgMapper.C02.refused_original_false", "ArgMapper.C06.no_walk_panic"], "facts": {"r5SkipSame": "true", "r6NameTest": "true", "publishAfterUpdate": "true", "trackReaching": "true", "takeValuedNamed": "true", "hopCopies": "true", "memoCopy": "true"},
         "rule": "call: at least one function executed, or an unsatisfied error with a converter present.",
-        "runs": {"quick": [fam("call", 500, 0, "hopeless"), fam("call", 300, 0, "general"), fam("call", 150, 0, "gens"), fam("hist", 400, 0)],
-                 "thorough": [fam("call", 60000, 0, "hopeless"), fam("call", 40000, 0, "general"), fam("call", 10000, 0, "gens"), fam("hist", 30000, 0)]},
+        "runs": {"quick": [fam("call", 500, 0, "hopeless"), fam("call", 300, 0, "general"), fam("call", 150, 0, "gens"), fam("hist", 400, 0), fam("call", 30, 0, "twin")],
+                 "thorough": [fam("call", 60000, 0, "hopeless"), fam("call", 40000, 0, "general"), fam("call", 10000, 0, "gens"), fam("hist", 30000, 0), fam("call", 300, 0, "twin")]},
     },
     "C03": {
         "claim": "Theorems: exact_wins_named (any oracle) and exact_wins (every legal Dijkstra oracle; uses C18.dist_exact and the weighted edge characterisation regenerated from graph.go): with an exactly matching supplied value for every parameter only the target executes and each parameter receives its exact value. Exact matches win: with an exactly matching supplied value for every parameter no converter runs and each parameter receives that value, whatever distractors are supplied. Tied to the code by trace conformance on the exact+distractors family (5 repetitions per scenario for tie-breaking) and the predicate on real traces.",
@@ -232,7 +232,7 @@ PROPS = {
         "claim": "Theorems: hopeless_reported (uses the verified DFS model, the edge characterisation and flow_compat), unsat_are_parameters, exact_not_listed, inputs_are_supplied, unsat_before_execution. The unsatisfied-argument error lists the hopeless parameter, only underivable parameters, exactly the supplied values, every supplied converter, and its message mentions each missing argument. Tied to the code by comparing the structured error fields (errors.As) of the real code with the model on scenarios with a hopeless parameter. The message: message_mentions_missing / _input / _converter about the model of Error() (Model/ErrMsg.lean), tied to the real text by counting, for every entry the model lists, the lines of the real message that end with it.",
         "note": "", "theorems": ["ArgMapper.C13.hopeless_reported", "ArgMapper.C13.unsat_before_execution", "ArgMapper.C13.unsat_are_parameters", "ArgMapper.C13.exact_not_listed", "ArgMapper.C13.inputs_are_supplied", "ArgMapper.C13.ruleFlow_iff_lib", "ArgMapper.C13.gaps_classified", "ArgMapper.C13.message_mentions_missing", "ArgMapper.C13.message_mentions_input", "ArgMapper.C13.message_mentions_converter"], "facts": {"r5SkipSame": "true", "r6NameTest": "true", "publishAfterUpdate": "true", "trackReaching": "true", "takeValuedNamed": "true", "hopCopies": "true", "memoCopy": "true"},
         "rule": "call: an unsatisfied error with a converter present, or a function executed.",
-        "runs": {"quick": [fam("call", 600, 0, "hopeless"), fam("hist", 400, 0)], "thorough": [fam("call", 50000, 0, "hopeless"), fam("hist", 30000, 0)]},
+        "runs": {"quick": [fam("call", 600, 0, "hopeless"), fam("hist", 400, 0), fam("call", 30, 0, "twin")], "thorough": [fam("call", 50000, 0, "hopeless"), fam("hist", 30000, 0), fam("call", 300, 0, "twin")]},
     },
     "C08": {
         "claim": "Theorems: inputs_filtered_fresh (every declared input passes the input filter and is not a supplied vertex, any oracle), output_filter, succeeds_when_permitted (subtype-free single-input fragment, any oracle: every parameter permitted and outputs admitted => the planning run succeeds), callable_graph / callable (same fragment: the call the redefined function makes is never refused for lack of an argument; two counterexamples to the statements without the one-type-per-name / lower-case-name hypotheses), inputSet_root_adjacent, root_adjacent_supplied_or_permitted. Redefine yields a function over exactly the missing, permitted inputs. Tied to the code by replaying the planning run (redefine-mode reachTarget with zero-producing stand-ins) through the model: call graph with filter-gated root edges, requirement order, pop orders, paths and the declared input set are compared; the redefined function is then called and the inner Call is replayed as an ordinary call with the extra values. Filter combinators: evalAny_iff, evalAll_iff, or_nil, and_nil, and_singleton, or_singleton, and_or_or, or_of_singleton_ands; the Redefine family replays both filters with the nesting the harness builds (empty and nested combinators included).",
